@@ -7,6 +7,7 @@ are then re-checked by the kernel against the new text.
 -/
 import BV.Gen.FnC08
 import BV.Model.Stored
+import BV.Lemmas.RsWriter
 
 namespace BV.Props.C08Gen
 open BV.Gen.FnC08
@@ -39,5 +40,92 @@ theorem max_compressed_size_multi_generated (n t : Nat) (hn : n < 2 ^ 64) :
   simp [BV.Gen.lits_MaxCompressedSizeMulti, BV.Header.lit, BV.Stored.W64]
 
 example : BrotliEncoderMaxCompressedSize 100000 = 100000 + 2 + 4 * 6 + 4 + 1 + 16 := by decide
+
+end BV.Props.C08Gen
+
+/-! ## the stored meta-block header (`BrotliStoreUncompressedMetaBlockHeader`) -/
+
+namespace BV.Props.C08Gen
+open BV.Gen.FnC08 BV.Rs BV.Header BV.Bits BV.Bits.Out
+
+theorem xor63 : ∀ k : Fin 64, 63 ^^^ (64 - 1 - k.val) = k.val := by decide
+
+theorem log2_floor_non_zero_generated (v : Nat) (h0 : v ≠ 0) (h : v < 2 ^ 64) :
+    Log2FloorNonZero v = Nat.log2 v := by
+  unfold Log2FloorNonZero BV.Rs.clz
+  have hl : Nat.log2 v < 64 := (Nat.log2_lt h0).2 h
+  simp only [h0, if_false]
+  exact xor63 ⟨Nat.log2 v, hl⟩
+
+/-- the generated `BrotliEncodeMlen` is the header model's `encodeMlen` wherever that passes its assertions -/
+theorem encode_mlen_generated (len a b c : Nat) (h1 : 1 ≤ len) (h : len ≤ 2 ^ 24) :
+    BV.Header.encodeMlen len = ok (BrotliEncodeMlen len a b c) := by
+  have h24 : (2:Nat) ^ 24 = 16777216 := by decide
+  have h32 : (2:Nat) ^ 32 = 4294967296 := by decide
+  rw [h24] at h
+  unfold BrotliEncodeMlen BV.Header.encodeMlen BV.Header.log2Floor
+  by_cases h1' : len = 1
+  · subst h1'; decide
+  · have e : (len + 4294967296 - 1) % 4294967296 = len - 1 := by omega
+    have hz : len - 1 ≠ 0 := by omega
+    have hlt : len - 1 < 2 ^ 64 := by
+      have : (2:Nat) ^ 64 = 18446744073709551616 := by decide
+      omega
+    have hl : Nat.log2 (len - 1) < 24 := (Nat.log2_lt hz).2 (by omega)
+    simp only [h24, h32, e, log2_floor_non_zero_generated (len - 1) hz hlt, h1', beq_iff_eq, if_false, decide_eq_true_eq]
+    have g1 : ¬ ¬ len > 0 := by omega
+    have g2 : ¬ ¬ len ≤ 16777216 := by omega
+    have g3 : ¬ ¬ Nat.log2 (len - 1) + 1 ≤ 24 := by omega
+    rw [if_neg g1, if_neg g2, if_neg g3]
+    refine congrArg Out.ok ?_
+    repeat' split
+    all_goals (try simp only [Prod.mk.injEq, true_and])
+    all_goals (try omega)
+    all_goals (constructor <;> omega)
+
+
+theorem runOps_bind_nil : ∀ (x : Out Writer), (x >>= runOps []) = x := by
+  intro x; cases x <;> rfl
+
+theorem run_four_writes (m : Nat × Nat × Nat) (w : Writer) :
+    runOps [WOp.bits 1 0, WOp.bits 2 m.2.2, WOp.bits (m.2.1 % 256) m.1, WOp.bits 1 1] w =
+      (writeBits 1 0 w >>= fun w => writeBits 2 m.2.2 w >>= fun w => writeBits (m.2.1 % 256) m.1 w >>= fun w => writeBits 1 1 w) := by
+  simp only [runOps_bits]
+  refine congrArg (fun f => writeBits 1 0 w >>= f) (funext fun w1 => ?_)
+  simp only [runOps_bits]
+  refine congrArg (fun f => writeBits 2 m.2.2 w1 >>= f) (funext fun w2 => ?_)
+  simp only [runOps_bits]
+  refine congrArg (fun f => writeBits (m.2.1 % 256) m.1 w2 >>= f) (funext fun w3 => ?_)
+  simp only [runOps_bits]
+  exact runOps_bind_nil _
+
+theorem store_uncompressed_header_ops (length : Nat) : BrotliStoreUncompressedMetaBlockHeader length =
+    [WOp.bits 1 0, WOp.bits 2 (BrotliEncodeMlen (length % 4294967296) 0 0 0).2.2,
+      WOp.bits ((BrotliEncodeMlen (length % 4294967296) 0 0 0).2.1 % 256) (BrotliEncodeMlen (length % 4294967296) 0 0 0).1, WOp.bits 1 1] := by
+  unfold BrotliStoreUncompressedMetaBlockHeader
+  rfl
+
+theorem store_uncompressed_header_model (length : Nat) (w : Writer) (m : Nat × Nat × Nat) (hm : encodeMlen (length % 2 ^ 32) = ok m) :
+    storeUncompressedMetaBlockHeader length w =
+      (writeBits 1 0 w >>= fun w => writeBits 2 m.2.2 w >>= fun w => writeBits (m.2.1 % 256) m.1 w >>= fun w => writeBits 1 1 w) := by
+  unfold storeUncompressedMetaBlockHeader
+  have l3 : lit litsUnc 3 = 1 := rfl
+  have l4 : lit litsUnc 4 = 0 := rfl
+  have l5 : lit litsUnc 5 = 2 := rfl
+  have l6 : lit litsUnc 6 = 1 := rfl
+  have l7 : lit litsUnc 7 = 1 := rfl
+  rw [l3, l4, l5, l6, l7, hm]
+  rfl
+
+/-- the generated operation list of `BrotliStoreUncompressedMetaBlockHeader`, run on any writer, is the
+header model's `storeUncompressedMetaBlockHeader`, for every length whose low 32 bits are a legal MLEN -/
+theorem store_uncompressed_header_generated (length : Nat) (w : Writer)
+    (h1 : 1 ≤ length % 2 ^ 32) (h : length % 2 ^ 32 ≤ 2 ^ 24) :
+    runOps (BrotliStoreUncompressedMetaBlockHeader length) w = storeUncompressedMetaBlockHeader length w := by
+  have hm := encode_mlen_generated (length % 2 ^ 32) 0 0 0 h1 h
+  rw [store_uncompressed_header_model length w _ hm, store_uncompressed_header_ops length, run_four_writes]
+
+example : BrotliStoreUncompressedMetaBlockHeader 65536 =
+    [WOp.bits 1 0, WOp.bits 2 0, WOp.bits 16 65535, WOp.bits 1 1] := by decide
 
 end BV.Props.C08Gen
